@@ -39,6 +39,11 @@ def defs_of(fnode):
             cnt[n.id] = cnt.get(n.id, 0) + 1
         if isinstance(n, ast.Assign) and len(n.targets) == 1 and isinstance(n.targets[0], ast.Name):
             val[n.targets[0].id] = n.value
+        if isinstance(n, ast.Assign) and len(n.targets) == 1 and isinstance(n.targets[0], ast.Tuple) and isinstance(n.value, ast.Tuple) \
+                and len(n.targets[0].elts) == len(n.value.elts):
+            for t_, v_ in zip(n.targets[0].elts, n.value.elts):
+                if isinstance(t_, ast.Name):
+                    val[t_.id] = v_
     a = fnode.args
     params = {x.arg for x in a.posonlyargs + a.args + a.kwonlyargs}
     return {k: v for k, v in val.items() if cnt.get(k) == 1 and k not in params}
